@@ -46,7 +46,7 @@ CLAIMS = {
             'trigonometric applications: end point verbatim, circle form of every sample, equal angular steps travel/n from '
             'atan2(-j,-i), n-1 samples, direction normalisation of the sweep, cross/dot arguments of the sweep angle, '
             'segment density, centre law of the radius form (with rewrite rules hypot^2, sqrt^2), no raising path; handler wiring '
-            'on every G2/G3 path (end point and centre offsets from this command\'s words, 0 where absent, direction, the planned '
+            'on every G2/G3 path (every arc the firmware executes is sampled; end point and centre offsets from this command\'s words, 0 where absent, direction, the planned '
             'points handed on in order); module-level tables that may change at run time are read as unknown history',
             'ONLY the symbolic construction is decided: floating-point values of the samples (rounding in atan2/cos/sin, drift, '
             'chord lengths) are not decided by this family; absolute positioning only'),
@@ -57,13 +57,14 @@ CLAIMS = {
     'C18': ('regex automata over a 16-class alphabet (totality, progress, capture-group tiling of the line regex) and '
             'abstract interpretation of GcodeParser.parse / parseLines / fullText / stringify / validate with symbolic match '
             'objects (freshness of every reader attribute, fullText = tiling groups in order, offset chaining, checksum text agreement, '
-            'checksum bookkeeping on every path whatever the checksum value)',
+            'checksum bookkeeping on every path whatever the checksum value, the parameter text rendered whenever it is not None)',
             'decides losslessness ingredients and checksum agreement; idempotence of normalisation as a whole is not decided; '
             'semantics of re as in re._parser'),
     'C19': ('regex language inclusion both ways against the RS274 number grammar, tokeniser progress automaton, abstract '
             'interpretation of parameterItems (order, upper-casing, float conversion, offset chaining), last-wins of '
             'parameterDict, dependence analysis letter -> tracked quantity over all handler paths, last-wins for repeated words, '
-            'insensitivity of every handler to the trailing string-argument item of parameterItems',
+            'insensitivity of every handler to the trailing string-argument item of parameterItems; freshness of the shared parser '
+            '(every reader attribute, the cached word map included, re-assigned by parse: C18.R5 as premise)',
             'float() versus firmware strtod trusted; at most two occurrences per letter in the handler analysis'),
     'C20': ('abstract interpretation of StreamProcessor.__init__ (heap reachability: no live object reachable, deep copy) '
             'and process_line over the result shapes of the handlers (mapping, EOL, byte-for-byte pass-through, stale reads '
@@ -101,7 +102,8 @@ CLAIMS = {
             'deferred command: skeleton shape, distinct letters, and a per-word proof that the formatter cannot produce '
             'exponent notation (fixed-point spec, integer, or helper whose every return is guarded by a test for an exponent marker); '
             'language inclusion (regex automata) of every command text the hooks can pass in the parameter-extraction regex of the firmware retract / recover commands; '
-            'writer census of the remembered command text spliced into them; string surgery on rendered numbers refused',
+            'writer census of the remembered command text spliced into them; string surgery on rendered numbers refused; the values '
+            'themselves: algebra of the generated G92 E / G1 E pair (C04.R3 / R4) and the exit value rules C03.R1 / R4 as premises',
             'finiteness of the values is not decided'),
     'C08': ('conversion laws of AxisPosition as polynomial identities (round trips in both modes, firmware map, G92 law, '
             'homing), native arguments of the region tests, sibling agreement of G20/G21/G90/G91 over all axes and the feed '
@@ -112,7 +114,8 @@ CLAIMS = {
             'round-off near borders are not decided; G92 law and relative-mode arcs are recorded known findings'),
     'C09': ('every abstract path of every handler: result shape None / IGNORE / non-empty list of non-empty commands; '
             'every partial operation (division, sqrt, index, None arithmetic, raise) forks an exceptional path that '
-            'must be infeasible under the sign/order facts of the path; hook arguments unknown (sub code: None, text or integer)',
+            'must be infeasible under the sign/order facts of the path; hook arguments unknown (sub code: None, text or integer); '
+            'totality of the region predicates decided on their own bodies (C17.R1 / R2 as premises; float ** is a partial operation)',
             'homed axes; parser summary; finiteness of floats (known limitation, see DESIGN)'),
 }
 
